@@ -19,7 +19,7 @@ LbAlpha == IF Thorough
            ELSE <<Q(-2,1), Q(-3,5), Q(-1,3), Q(-1,6), Q(1,4), Q(3,1)>>
 Om == IF Thorough
       THEN <<Q(4,1), Q(7,2), Q(3,1), Q(5,2), Q(2,1), Q(3,2), Q(26,25), Q(51,50), Q(1,1), Q(1,2)>>
-      ELSE <<Q(7,2), Q(3,1), Q(5,2), Q(2,1), Q(3,2), Q(26,25), Q(1,1), Q(1,2)>>
+      ELSE <<Q(3,1), Q(5,2), Q(2,1), Q(3,2), Q(26,25), Q(1,1), Q(1,2)>>
 FreqAlpha == [j \in 1..Len(Om) |-> RInv(RMul(Om[j], Om[j]))]          \* ascending in mu
 Alpha == IF Family = "lb" THEN LbAlpha ELSE FreqAlpha
 NA == Len(Alpha)
@@ -48,38 +48,43 @@ Canon2(nb) == IF Family = "lb" THEN { NA + 1 - j : j \in 1..(nb \div 2) } \cup {
               ELSE { j : j \in 1..nb }
 MkProblem(n, c, S, s) == [n |-> n, cls |-> c, sp |-> WithZeros(Pick(S), NZ(c)), s |-> s]
 
-NMax == IF Thorough THEN 6 ELSE 5
-(* F1: every placement of null / stiffness-only amplitudes with canonical spectra;
-   F2: all spectra of the alphabet x scales on a few placements *)
+(* F1 "place": every placement of null / stiffness-only amplitudes (n <= NPlace), canonical spectra, scale 1;
+   F2 "spec" : all spectra of the alphabet x scales {1, 2, 1/2} on a few placements *)
+NPlace == IF Thorough THEN 6 ELSE (IF Family = "lb" THEN 4 ELSE 5)
 PatternsAt(n) ==
     LET base == [i \in 1..n |-> "both"]
     IN { base, [base EXCEPT ![2] = "null"] } \cup
        (IF Family = "lb" THEN { [base EXCEPT ![2] = "null", ![4] = "konly"], [base EXCEPT ![1] = "konly"] } ELSE {}) \cup
        (IF n >= 6 THEN { [base EXCEPT ![3] = "null", ![6] = "null"] } ELSE {})
 Scales == { ROne, Q(2,1), Q(1,2) }
-Problems ==
-    LET f1 == UNION { UNION { { MkProblem(n, c, Canon1(NB(c)), ROne), MkProblem(n, c, Canon2(NB(c)), ROne) }
-                               : c \in ClsVecs(n) } : n \in 3..NMax }
-        f2 == UNION { UNION { { MkProblem(n, c, S, s) : S \in { T \in SUBSET (1..NA) : Cardinality(T) = NB(c) },
-                                                        s \in Scales }
-                               : c \in PatternsAt(n) } : n \in (IF Thorough THEN {5, 6} ELSE {5}) }
-    IN f1 \cup f2
+F1 == UNION { UNION { { MkProblem(n, c, Canon1(NB(c)), ROne), MkProblem(n, c, Canon2(NB(c)), ROne) }
+                       : c \in ClsVecs(n) } : n \in 3..NPlace }
+F2 == UNION { UNION { { MkProblem(n, c, S, s) : S \in { T \in SUBSET (1..NA) : Cardinality(T) = NB(c) },
+                                                s \in Scales }
+                       : c \in PatternsAt(n) } : n \in (IF Thorough THEN {5, 6} ELSE {5}) }
 
-Nums(n) == IF Thorough THEN 1..(n + 2) ELSE {1, 2, n - 2, n - 1, n, n + 2}
-OptsFor(p) ==
+Nums(n, tag) == IF Thorough THEN 1..(n + 2)
+                ELSE IF tag = "place" THEN {1, n - 1, n + 2} ELSE {1, 3, n - 1, n + 2}
+OptsFor(p, tag) ==
     IF Family = "lb"
-    THEN [api : {"lb", "panel_lb"}, sparse : BOOLEAN, num : Nums(p.n), sort : {FALSE}, reduced : {FALSE}, pos : {0}]
-         \cup [api : {"conecyl_lb"}, sparse : {TRUE}, num : Nums(p.n), sort : {FALSE}, reduced : {FALSE}, pos : {3}]
-    ELSE [api : {"freq", "panel_freq"}, sparse : {TRUE}, num : Nums(p.n), sort : BOOLEAN, reduced : {FALSE}, pos : {0}]
-         \cup [api : {"freq", "panel_freq"}, sparse : {FALSE}, num : {2, p.n + 2}, sort : BOOLEAN, reduced : BOOLEAN, pos : {0}]
+    THEN [api : IF tag = "place" /\ ~Thorough THEN {"lb"} ELSE {"lb", "panel_lb"}, sparse : BOOLEAN,
+          num : Nums(p.n, tag), sort : {FALSE}, reduced : {FALSE}, pos : {0}]
+         \cup (IF tag = "place" /\ ~Thorough THEN {}
+               ELSE [api : {"conecyl_lb"}, sparse : {TRUE}, num : Nums(p.n, tag), sort : {FALSE}, reduced : {FALSE}, pos : {3}])
+    ELSE [api : IF tag = "place" /\ ~Thorough THEN {"freq"} ELSE {"freq", "panel_freq"}, sparse : {TRUE},
+          num : Nums(p.n, tag), sort : BOOLEAN, reduced : {FALSE}, pos : {0}]
+         \cup [api : IF tag = "place" /\ ~Thorough THEN {"freq"} ELSE {"freq", "panel_freq"}, sparse : {FALSE},
+               num : {2}, sort : BOOLEAN, reduced : BOOLEAN, pos : {0}]
 
-MCInit == st \in { InitState(p, o, Dev) : <<p, o>> \in UNION { { <<p, o>> : o \in OptsFor(p) } : p \in Problems } }
+Cases == UNION { { <<p, o>> : o \in OptsFor(p, "place") } : p \in F1 }
+         \cup UNION { { <<p, o>> : o \in OptsFor(p, "spec") } : p \in F2 }
+MCInit == st \in { InitState(c[1], c[2], Dev) : c \in Cases }
 (* END: one compact line per finished behaviour (which actions ran, how it ended, which antecedents held) *)
 Flags(s) == [regime |-> IsLb(s.o.api) /\ Regime(s.p),
-             tail |-> IsLb(s.o.api) /\ Done(s) /\ Known(s) /\ Len(s.vals) > NPos(s.p),
+             tail |-> IsLb(s.o.api) /\ Finished(s) /\ Known(s) /\ Len(s.vals) > NPos(s.p),
              collision |-> ~IsLb(s.o.api) /\ Collision(s.p),
-             agree |-> Done(s) /\ s.o.sparse /\ Known(s) /\ (IF IsLb(s.o.api) THEN Regime(s.p) ELSE s.o.sort),
-             unsorted |-> ~IsLb(s.o.api) /\ Done(s) /\ Known(s) /\ ~FreqAscending(s.p, Ids(s))]
+             agree |-> Finished(s) /\ s.o.sparse /\ Known(s) /\ (IF IsLb(s.o.api) THEN Regime(s.p) ELSE s.o.sort),
+             unsorted |-> ~IsLb(s.o.api) /\ Finished(s) /\ Known(s) /\ ~FreqAscending(s.p, Ids(s))]
 MCNext == /\ \/ ChooseK /\ PrintT(<<"REQ", st.p, st.o>>)
              \/ TrySparse \/ RemoveNull \/ TakeVW \/ SolveReduced \/ Scatter
              \/ NegateInvert \/ Sqrt \/ Sort \/ ReExpand \/ Return
